@@ -39,7 +39,11 @@ type cliCase struct {
 		S2  []string `json:"s2"`
 		Out Arch     `json:"out"`
 	} `json:"append"`
-	Concat2 Arch `json:"concat2"`
+	Concat2   Arch `json:"concat2"`
+	Other     Arch `json:"other"`
+	ConcatAO  Arch `json:"concat_ao"`
+	ConcatOA  Arch `json:"concat_oa"`
+	ConcatAOA Arch `json:"concat_aoa"`
 }
 
 type cliCtx struct {
@@ -156,16 +160,30 @@ func runCliCase(x *cliCtx, sample func(string) bool) {
 		for _, id := range f.Sel {
 			cids = append(cids, alphaByID[id].Cid.String())
 		}
+		// the list comes from a file or from stdin, with or without a newline after its last line
+		hv := fnv.New32a()
+		hv.Write([]byte(canon(c.A) + key))
+		variant := hv.Sum32() % 4
+		list := strings.Join(cids, "\n")
+		if variant%2 == 0 || len(cids) == 0 {
+			list += "\n"
+		}
 		cf := filepath.Join(x.dir, "cids.txt")
-		os.WriteFile(cf, []byte(strings.Join(cids, "\n")+"\n"), 0o644)
+		os.WriteFile(cf, []byte(list), 0o644)
 		out := filepath.Join(x.dir, "filtered.car")
 		os.Remove(out)
-		args := []string{"filter", "--cid-file", cf, "--version", fmt.Sprint(f.Ver)}
+		args := []string{"filter", "--version", fmt.Sprint(f.Ver)}
+		var stdin []byte
+		if variant < 2 {
+			args = append(args, "--cid-file", cf)
+		} else {
+			stdin = []byte(list)
+		}
 		if f.Inv {
 			args = append(args, "--inverse")
 		}
 		args = append(args, in, out)
-		_, se, err := x.run(nil, args...)
+		_, se, err := x.run(stdin, args...)
 		x.rep.eval(canon(c.A)+key, true)
 		if err != nil {
 			x.viol("filter/error", fmt.Sprintf("%v: %s", args[:len(args)-2], strings.TrimSpace(string(se))), map[string]any{"filter": f})
@@ -362,6 +380,31 @@ func runCliCase(x *cliCtx, sample func(string) bool) {
 			} else {
 				x.closure("concat", out, archInspectable(&c.Concat2), archVerifiable(&c.Concat2))
 			}
+		}
+		// inputs whose headers differ in length: a second archive with two roots, before / after / between
+		if len(c.A.Roots) > 0 && len(c.Other.Secs) > 0 {
+			oin := filepath.Join(x.dir, "other.car")
+			os.WriteFile(oin, c.Other.build(), 0o644)
+			for _, k := range []struct {
+				name string
+				ins  []string
+				want *Arch
+			}{{"a+other", []string{in, oin}, &c.ConcatAO}, {"other+a", []string{oin, in}, &c.ConcatOA}, {"a+other+a", []string{in, oin, in}, &c.ConcatAOA}} {
+				os.Remove(out)
+				_, se, err := x.run(nil, append([]string{"concat", "-o", out}, k.ins...)...)
+				x.rep.eval(canon(c.A)+"concat"+k.name, true)
+				if err != nil {
+					x.viol("concat/error", k.name+": "+strings.TrimSpace(string(se)), nil)
+					continue
+				}
+				got, _ := os.ReadFile(out)
+				if want := k.want.build(); !bytes.Equal(got, want) {
+					x.viol("concat/content", fmt.Sprintf("concat %s is not roots %v sections %v", k.name, k.want.Roots, k.want.Secs), nil)
+				} else {
+					x.closure("concat", out, archInspectable(k.want), archVerifiable(k.want))
+				}
+			}
+			os.Remove(oin)
 		}
 		// --version 2
 		out2 := filepath.Join(x.dir, "concat2.car")
